@@ -8,6 +8,7 @@ import (
 	"os"
 	"path/filepath"
 	"sync"
+	"sync/atomic"
 
 	"kapverif/rt"
 )
@@ -45,6 +46,45 @@ type worker struct {
 	fulls     int
 	lastFired bool
 	txs       int
+	forceWrap bool     // after a stuck operation: every transaction goes through the tracking wrapper
+	gen       int      // store files abandoned so far (a stuck transaction keeps its file locked)
+	stuckOps  []string // evidence
+}
+
+// diverted: some worker met a stuck operation; later random histories use the tracking wrapper only.
+var diverted atomic.Bool
+
+// attempt runs one edge.  If an operation in it does not return (stuck), the store file is
+// abandoned (the blocked handle keeps its lock), the worker switches to a fresh file and to
+// the tracking wrapper, and the edge is executed again: the wrapper then reports structurally
+// whether Update left its transaction open (event field leaked, judged by the specification)
+// and rolls it back, so the run continues.  A second stuck attempt is a broken harness.
+func (w *worker) attempt(run func()) {
+	for try := 0; ; try++ {
+		ok := func() (ok bool) {
+			defer func() {
+				if r := recover(); r != nil {
+					s, is := r.(stuck)
+					if !is {
+						panic(r)
+					}
+					if try > 0 {
+						rt.Fatalf("%s did not return within %v even through the tracking wrapper", s.what, opDeadline)
+					}
+					w.stuckOps = append(w.stuckOps, s.what)
+					w.gen++
+					w.file = filepath.Join(w.dir, fmt.Sprintf("kapacitor-%d.db", w.gen))
+					w.forceWrap = true
+					diverted.Store(true)
+				}
+			}()
+			run()
+			return true
+		}()
+		if ok {
+			return
+		}
+	}
 }
 
 // txSweep: multi-operation transactions (store.Update grouping txLen operations).
@@ -81,21 +121,26 @@ func resetCfg(ids []string, full []query) rt.M {
 // edge executes one operation on the store file restored to `state`:
 // open, apply, observe on the same handle, close, reopen, observe again
 // (+ raw dump, + the full grid the first time this content is seen), close.
-func (w *worker) edge(state []byte, o op, v, pre, post, failAt int) (string, []byte) {
+func (w *worker) edge(state []byte, o op, v, pre, post int, f flt) (res string, snap []byte) {
+	w.attempt(func() { res, snap = w.edge1(state, o, v, pre, post, f) })
+	return
+}
+
+func (w *worker) edge1(state []byte, o op, v, pre, post int, f flt) (string, []byte) {
 	w.restore(state)
-	e, err := openEnv(w.file, failAt != 0)
+	e, err := openEnv(w.file, f.At != 0 || w.forceWrap || diverted.Load())
 	if err != nil {
 		rt.Fatalf("open: %v", err)
 	}
 	if e.fs != nil {
-		e.fs.set(failAt)
+		e.fs.set(f)
 	}
 	res := e.apply(o, v)
 	ev := rt.M{"pre": pre, "post": post, "op": o.Kind, "id": o.ID, "a": o.A, "v": v,
-		"failAt": failAt, "fired": false, "nw": -1, "res": res}
+		"failAt": f.At, "fmode": f.mode(), "fired": false, "nw": -1, "leaked": false, "res": res}
 	w.lastFired = false
 	if e.fs != nil {
-		ev["fired"], ev["nw"] = e.fs.fired, e.fs.writes
+		ev["fired"], ev["nw"], ev["leaked"] = e.fs.fired, e.fs.writes, e.fs.leaked
 		w.lastFired = e.fs.fired
 	}
 	w.observe(e, ev)
@@ -129,23 +174,37 @@ func (w *worker) observe(e *env, ev rt.M) {
 }
 
 // txEdge executes one multi-operation transaction on the store file restored to `state`.
-func (w *worker) txEdge(state []byte, ops []op, vbase, pre, post, failAt int, abort bool) {
+func (w *worker) txEdge(state []byte, ops []op, vbase, pre, post int, f flt, amode string) {
+	w.attempt(func() { w.txEdge1(state, ops, vbase, pre, post, f, amode) })
+}
+
+func (w *worker) txEdge1(state []byte, ops []op, vbase, pre, post int, f flt, amode string) {
 	w.restore(state)
-	e, err := openEnv(w.file, failAt != 0)
+	// the wrapper is also used for the aborting variants: it tells whether the transaction was left open
+	e, err := openEnv(w.file, f.At != 0 || amode != "" || w.forceWrap || diverted.Load())
 	if err != nil {
 		rt.Fatalf("open: %v", err)
 	}
 	if e.fs != nil {
-		e.fs.set(failAt)
+		e.fs.set(f)
 	}
-	res := e.runTx(w.t, w.sw.ids, ops, vbase, pre, failAt, abort)
-	ev := rt.M{"post": post, "abort": abort, "fired": false, "nw": -1, "res": res}
+	// the transaction's lines are buffered: an attempt that gets stuck logs nothing
+	type line struct {
+		name string
+		m    rt.M
+	}
+	var buf []line
+	res := e.runTx(func(n string, m rt.M) { buf = append(buf, line{n, m}) }, w.sw.ids, ops, vbase, pre, f, amode)
+	ev := rt.M{"post": post, "abort": amode != "", "fired": false, "nw": -1, "leaked": false, "res": res}
 	w.lastFired = false
 	if e.fs != nil {
-		ev["fired"], ev["nw"] = e.fs.fired, e.fs.writes
+		ev["fired"], ev["nw"], ev["leaked"] = e.fs.fired, e.fs.writes, e.fs.leaked
 		w.lastFired = e.fs.fired
 	}
 	w.observe(e, ev)
+	for _, l := range buf {
+		w.t.Event(l.name, l.m)
+	}
 	w.t.Event("TxEnd", ev)
 	w.txs++
 }
@@ -157,7 +216,7 @@ func (w *worker) txUnit(ts txSweep, first int) {
 	for pi, pre := range ts.preambles {
 		var state []byte
 		for i, o := range pre {
-			_, state = w.edge(state, o, i+1, i+1, i+2, 0)
+			_, state = w.edge(state, o, i+1, i+1, i+2, flt{})
 			w.edges++
 		}
 		slot := len(pre) + 1
@@ -170,18 +229,21 @@ func (w *worker) txUnit(ts txSweep, first int) {
 				return
 			}
 			vb := 10 * (len(pre) + 1)
-			w.txEdge(state, seq, vb, slot, slot+1, 0, false)
+			w.txEdge(state, seq, vb, slot, slot+1, flt{}, "")
 			if pi == 0 {
-				w.txEdge(state, seq, vb, slot, slot+1, 0, true)
-				for k := 1; k <= 64; k++ {
-					w.txEdge(state, seq, vb, slot, slot+1, k, false)
-					w.faults++
-					if !w.lastFired {
-						break
+				w.txEdge(state, seq, vb, slot, slot+1, flt{}, "abort")
+				w.txEdge(state, seq, vb, slot, slot+1, flt{}, "panic")
+				for _, pm := range []bool{false, true} {
+					for k := 1; k <= 64; k++ {
+						w.txEdge(state, seq, vb, slot, slot+1, flt{k, pm}, "")
+						w.faults++
+						if !w.lastFired {
+							break
+						}
 					}
 				}
-				w.txEdge(state, seq, vb, slot, slot+1, -1, false)
-				w.faults++
+				w.txEdge(state, seq, vb, slot, slot+1, flt{At: -1}, "")
+				w.faults += 3
 			}
 		}
 		rec([]op{w.ops[first]})
@@ -195,21 +257,26 @@ func (w *worker) node(state []byte, depth int, only int) {
 			continue
 		}
 		if depth < w.sw.faultDepth {
-			for k := 1; ; k++ {
-				w.edge(state, o, depth+1, depth+1, depth+2, k)
-				w.faults++
-				// the wrapper counted the writes: stop once k is beyond them (that run succeeded)
-				if k > 64 {
-					rt.Fatalf("fault loop does not terminate for %v", o)
-				}
-				if !w.lastFired {
-					break
+			// the k-th write returns an error / panics (the update function panics after k-1 writes)
+			for _, pm := range []bool{false, true} {
+				for k := 1; ; k++ {
+					w.edge(state, o, depth+1, depth+1, depth+2, flt{k, pm})
+					w.faults++
+					// the wrapper counted the writes: stop once k is beyond them (that run succeeded)
+					if k > 64 {
+						rt.Fatalf("fault loop does not terminate for %v", o)
+					}
+					if !w.lastFired {
+						break
+					}
 				}
 			}
-			w.edge(state, o, depth+1, depth+1, depth+2, -1) // tx.Commit fails
-			w.faults++
+			w.edge(state, o, depth+1, depth+1, depth+2, flt{At: -1}) // tx.Commit fails
+			// the update function panics after its last write, before it returns
+			w.txEdge(state, []op{o}, depth+1, depth+1, depth+2, flt{}, "panic")
+			w.faults += 2
 		}
-		_, child := w.edge(state, o, depth+1, depth+1, depth+2, 0)
+		_, child := w.edge(state, o, depth+1, depth+1, depth+2, flt{})
 		w.edges++
 		if depth+1 < w.sw.depth {
 			w.node(child, depth+1, -1)
@@ -289,6 +356,8 @@ func Run(r *rt.Run) error {
 		traces[i] = r.NewTrace(fmt.Sprintf("tree%02d", i))
 	}
 	type stat struct{ edges, faults, fulls, txs int }
+	var stuckMu sync.Mutex
+	stuckAll := []string{}
 	stats := make([]stat, nFiles)
 	var wg sync.WaitGroup
 	sem := make(chan struct{}, 12)
@@ -312,6 +381,9 @@ func Run(r *rt.Run) error {
 					w.node(nil, 0, u.first)
 				}
 				stats[f].txs += w.txs
+				stuckMu.Lock()
+				stuckAll = append(stuckAll, w.stuckOps...)
+				stuckMu.Unlock()
 				stats[f].edges += w.edges
 				stats[f].faults += w.faults
 				stats[f].fulls += w.fulls
@@ -360,10 +432,14 @@ func Run(r *rt.Run) error {
 		sw = append(sw, fmt.Sprintf("%s: ids=%v ops=%d depth<=%d faults at depth<%d", s.name, s.ids, len(opsOver(s.ids, s.kinds)), s.depth, s.faultDepth))
 	}
 	for _, s := range txSweeps {
-		sw = append(sw, fmt.Sprintf("%s: ids=%v ops=%d transactions of %d operations from %d pre-states (abort/FailAt(k)/failing-commit variants at the first)", s.name, s.ids, len(opsOver(s.ids, s.kinds)), s.txLen, len(s.preambles)))
+		sw = append(sw, fmt.Sprintf("%s: ids=%v ops=%d transactions of %d operations from %d pre-states (abort / panic-at-end / FailAt(k) as error and as panic / failing-commit variants at the first)", s.name, s.ids, len(opsOver(s.ids, s.kinds)), s.txLen, len(s.preambles)))
 	}
 	r.Extra["sweeps"] = sw
 	r.Extra["transactions"] = tot.txs
+	if len(stuckAll) > 8 {
+		stuckAll = stuckAll[:8]
+	}
+	r.Extra["stuck_operations_rerun_through_tracking_wrapper"] = stuckAll
 	r.Extra["tree_edges"] = tot.edges
 	r.Extra["fault_runs"] = tot.faults
 	r.Extra["full_grid_observations"] = tot.fulls
@@ -396,18 +472,20 @@ func setReopenObs(ev rt.M, rget, rlists []any) {
 func sampleTrace(r *rt.Run, tmp string) {
 	t := r.NewTrace("sample")
 	small := []query{{"id", "a*", 0, 1, false}, {"a", "", 1, -1, true}}
-	w := &worker{t: t, file: filepath.Join(tmp, "sample.db"), full: small, seenFull: map[string]bool{},
+	w := &worker{t: t, dir: tmp, file: filepath.Join(tmp, "sample.db"), full: small, seenFull: map[string]bool{},
 		sw: sweep{name: "sample", ids: []string{"", "a", "ab"}}}
 	t.Reset(resetCfg(w.sw.ids, small))
 	var st []byte
-	_, st = w.edge(st, op{"Create", "a", "y"}, 1, 1, 2, 0)
-	_, st = w.edge(st, op{"Put", "ab", "x"}, 2, 2, 3, 0)
-	w.edge(st, op{"Replace", "a", "x"}, 3, 3, 4, 2)
-	_, st = w.edge(st, op{"Replace", "a", "x"}, 3, 3, 4, 0)
-	w.edge(st, op{"Delete", "ab", ""}, 4, 4, 5, -1)
-	_, st = w.edge(st, op{"Delete", "ab", ""}, 4, 4, 5, 0)
-	w.txEdge(st, []op{{"Create", "", "y"}, {"Delete", "a", ""}, {"Rebuild", "", ""}}, 50, 5, 6, 0, false)
-	w.txEdge(st, []op{{"Put", "ab", "x"}, {"Create", "a", "y"}}, 50, 5, 6, 0, false)
+	_, st = w.edge(st, op{"Create", "a", "y"}, 1, 1, 2, flt{})
+	_, st = w.edge(st, op{"Put", "ab", "x"}, 2, 2, 3, flt{})
+	w.edge(st, op{"Replace", "a", "x"}, 3, 3, 4, flt{At: 2})
+	w.edge(st, op{"Replace", "a", "x"}, 3, 3, 4, flt{At: 3, Panic: true})
+	_, st = w.edge(st, op{"Replace", "a", "x"}, 3, 3, 4, flt{})
+	w.edge(st, op{"Delete", "ab", ""}, 4, 4, 5, flt{At: -1})
+	_, st = w.edge(st, op{"Delete", "ab", ""}, 4, 4, 5, flt{})
+	w.txEdge(st, []op{{"Create", "", "y"}, {"Delete", "a", ""}, {"Rebuild", "", ""}}, 50, 5, 6, flt{}, "")
+	w.txEdge(st, []op{{"Put", "ab", "x"}, {"Create", "b", "y"}}, 50, 5, 6, flt{At: 5, Panic: true}, "")
+	w.txEdge(st, []op{{"Put", "ab", "x"}, {"Create", "a", "y"}}, 50, 5, 6, flt{}, "")
 }
 
 // randomHistory: one linear history (pre = post = 1) on a single open handle; one step in
@@ -415,6 +493,17 @@ func sampleTrace(r *rt.Run, tmp string) {
 func randomHistory(t *rt.Trace, rng *rand.Rand, file string, full []query, n int) int {
 	os.Remove(file)
 	wrapAll := rng.Intn(2) == 0 // half of the histories run entirely through the (counting) wrapper
+	if diverted.Load() {
+		wrapAll = true // a transaction got stuck earlier in this run: only the tracking wrapper is safe
+	}
+	defer func() {
+		if r := recover(); r != nil {
+			if s, ok := r.(stuck); ok {
+				rt.Fatalf("random history: %s did not return within %v (transaction left open?)", s.what, opDeadline)
+			}
+			panic(r)
+		}
+	}()
 	t.Reset(resetCfg(allIDs, full))
 	e, err := openEnv(file, wrapAll)
 	if err != nil {
@@ -430,12 +519,12 @@ func randomHistory(t *rt.Trace, rng *rand.Rand, file string, full []query, n int
 	key := ""
 	for k := 1; k <= n; k++ {
 		var seq []op
-		abort := false
+		amode := ""
 		if rng.Intn(5) == 0 {
-			for i := 2 + rng.Intn(2); i > 0; i-- {
+			for i := 1 + rng.Intn(3); i > 0; i-- {
 				seq = append(seq, pick())
 			}
-			abort = rng.Intn(5) == 0
+			amode = []string{"", "", "", "", "", "", "abort", "panic"}[rng.Intn(8)]
 		}
 		o := pick()
 		failAt := 0
@@ -448,6 +537,7 @@ func randomHistory(t *rt.Trace, rng *rand.Rand, file string, full []query, n int
 				failAt = -1 // tx.Commit fails
 			}
 		}
+		f := flt{At: failAt, Panic: failAt > 0 && rng.Intn(3) == 0}
 		if failAt != 0 && e.fs == nil {
 			// switch to the wrapper for this operation: reopen wrapped
 			e.close()
@@ -456,23 +546,23 @@ func randomHistory(t *rt.Trace, rng *rand.Rand, file string, full []query, n int
 			}
 		}
 		if e.fs != nil {
-			e.fs.set(failAt)
+			e.fs.set(f)
 		}
 		var ev rt.M
 		name := "Op"
 		if seq != nil {
 			name = "TxEnd"
-			res := e.runTx(t, allIDs, seq, 100*k, 1, failAt, abort)
-			ev = rt.M{"post": 1, "abort": abort, "fired": false, "nw": -1, "res": res}
-			key += fmt.Sprintf("T%v%d%v;", seq, failAt, abort)
+			res := e.runTx(t.Event, allIDs, seq, 100*k, 1, f, amode)
+			ev = rt.M{"post": 1, "abort": amode != "", "fired": false, "nw": -1, "leaked": false, "res": res}
+			key += fmt.Sprintf("T%v%v%v;", seq, f, amode)
 		} else {
 			res := e.apply(o, k)
 			ev = rt.M{"pre": 1, "post": 1, "op": o.Kind, "id": o.ID, "a": o.A, "v": k,
-				"failAt": failAt, "fired": false, "nw": -1, "res": res}
-			key += fmt.Sprintf("%s%d;", o, failAt)
+				"failAt": failAt, "fmode": f.mode(), "fired": false, "nw": -1, "leaked": false, "res": res}
+			key += fmt.Sprintf("%s%v;", o, f)
 		}
 		if e.fs != nil {
-			ev["fired"], ev["nw"] = e.fs.fired, e.fs.writes
+			ev["fired"], ev["nw"], ev["leaked"] = e.fs.fired, e.fs.writes, e.fs.leaked
 		}
 		ev["get"] = e.get(allIDs)
 		ev["lists"] = e.lists(basicGrid)
